@@ -36,6 +36,8 @@ def ev(e, env, calls=None):
     key = pp(e)
     if key in env:
         return env[key]
+    if k == "Sub" and "__mem__" in env:
+        return _wrap(env["__mem__"].load(pp(sk(e["a"][0])), ev(e["a"][1], env, calls), e), e.get("t"))
     if k == "Bin":
         op = e["op"]
         if op == "&&":
@@ -88,9 +90,31 @@ def ev(e, env, calls=None):
             return ev(e["a"][0], env, calls)
     if k == "Call" and calls and e.get("fn") in calls:
         return calls[e["fn"]](*[a for a in e.get("a", ())])
+    if k == "Call" and "__prog__" in env and e.get("fn"):
+        return _wrap(env["__prog__"](e["fn"], [ev(a, env, calls) for a in e.get("a", ())]), e.get("t"))
     if k == "Sizeof" and cval(e) is not None:
         return cval(e)
     raise Unknown("cannot evaluate %s" % key)
+
+
+class Memory:
+    """Byte/element memory for small evaluations: load(base, idx) falls back to
+    `default(base, idx)`; stores are recorded."""
+
+    def __init__(self, default):
+        self.default = default
+        self.cells = {}
+
+    def load(self, base, idx, node=None):
+        if (base, idx) in self.cells:
+            return self.cells[(base, idx)]
+        v = self.default(base, idx)
+        if v is None:
+            raise Unknown("load %s[%s]" % (base, idx))
+        return v
+
+    def store(self, base, idx, val):
+        self.cells[(base, idx)] = val
 
 
 class Returned(Exception):
@@ -98,9 +122,9 @@ class Returned(Exception):
         self.value = value
 
 
-def call_function(f, args, maxsteps=2000):
+def call_function(f, args, maxsteps=2000, env=None):
     """Value returned by the pure integer function f for concrete arguments."""
-    env = {}
+    env = dict(env or {})
     for p, a in zip(f.params, args):
         env[p["ref"]["name"]] = _wrap(a, p.get("t"))
     try:
@@ -132,6 +156,9 @@ def run_straight(f, env, calls, stop, maxsteps=400, returns=False):
                     raise Unknown("void return")
                 raise Returned(ev(x["a"][0], env, calls))
             if returns and k == "Call" and x.get("fn") not in (calls or {}):
+                if "__prog__" in env and x.get("fn"):
+                    env["__prog__"](x["fn"], [ev(a, env, calls) for a in x.get("a", ())])
+                    continue
                 raise Unknown("call to %s inside %s" % (x.get("fn"), f.name))
             if k == "Decl":
                 for d in x["decls"]:
@@ -140,6 +167,12 @@ def run_straight(f, env, calls, stop, maxsteps=400, returns=False):
                             env[d["ref"]["name"]] = _wrap(ev(d["init"], env, calls), d["t"])
                         except Unknown:
                             env.pop(d["ref"]["name"], None)
+            elif k == "Bin" and x["op"] == "=" and sk(x["a"][0]).get("k") == "Sub" and "__mem__" in env:
+                lhs = sk(x["a"][0])
+                try:
+                    env["__mem__"].store(pp(sk(lhs["a"][0])), ev(lhs["a"][1], env, calls), _wrap(ev(x["a"][1], env, calls), lhs.get("t")))
+                except Unknown:
+                    env["__mem__"].store(pp(sk(lhs["a"][0])), None, None)
             elif k == "Bin" and x["op"] in ("=", "+=", "-=", "*=", "/=") and (sk(x["a"][0]).get("t") or {}).get("k") in ("int", "enum", "bool"):
                 lk = pp(sk(x["a"][0]))
                 lt = sk(x["a"][0]).get("t")
